@@ -33,6 +33,11 @@ impl<'a> Cur<'a> {
         let b = self.u16() as u32;
         (a << 16) | b
     }
+    pub fn u64(&mut self) -> u64 {
+        let a = self.u32() as u64;
+        let b = self.u32() as u64;
+        (a << 32) | b
+    }
     /// Monotone map of one byte onto 0..n (n <= 256)
     #[inline]
     pub fn pick(&mut self, n: usize) -> usize {
